@@ -154,6 +154,7 @@ package transactions
 
 // One call of timeout() = one expiry of the armed timer (A-TIMER).
 //@ func (*RetryTransaction).timeout
+//@   async [C18,C19] inv: retryInv(t)
 //@   nopanic [C18,C19]
 //@   requires [C19] inv: retryInv(t)
 //@   guarded [C18] retryNumMutex: retryNum
@@ -187,6 +188,7 @@ package transactions
 // The timer callback: it may run at any moment after time.AfterFunc returns,
 // so its precondition is an obligation at that call site (callback_enabled).
 //@ func NewTimedTransaction$1
+//@   async [C18,C19] constructed: timedWF(t)
 //@   nopanic [C18,C19]
 //@   requires [C18] constructed: timedWF(t)
 //@   assigns armed(t.timer), t.TransactionBase.err, closed(t.TransactionBase.done), calls(t.TransactionBase.finally)
